@@ -133,6 +133,7 @@ def run(ctx: Ctx):
 
     # reader side: generic function application uses every argument
     check_apply_all(ctx, "R11.a")
+    check_number_forms(ctx, "R11.a", G)
 
     ctx.rule("R11.b", "coverage: the writer emits comments, states, parameters and all assignments; each helper writes name, value/expression, unit, description and component names unmodified", floor=12)
     w = sm.func("save.py", "write_ODE_to_ode_file")
@@ -271,8 +272,30 @@ def check_writer_sections(ctx: Ctx, rule: str, cls):
             if order[0] == "list" and len(order[1]) == 2 and all(x[0] == "spread" and x[1][0] == "comp" for x in order[1]):
                 first, second = order[1][0][1], order[1][1][1]
 
+                def selects_headerless(c):
+                    """True / False when the comprehension's filter, evaluated for the key of the atoms without a
+                    component ("",) and for keys of named components, is decided; None when it is not"""
+                    if not (len(c[4]) == 1 and c[3] == (("bv", c[1]),) and c[2][0] == "mcall" and c[2][2] == "keys" and same(c[2][1], D)):
+                        return None
+                    try:
+                        src = _av.to_python(c[4][0], {c[1]: "_key"})
+                    except Exception:
+                        return None
+                    AE = util.AV(ctx, True)
+                    got = []
+                    for rep in (("",), ("A",), ("A", "B")):
+                        try:
+                            r = AE.expr(src, {"_key": ("list", tuple(_av.C(x) for x in rep)), "self": ("sym", "self")}, f.rel, f)
+                        except Exception:
+                            return None
+                        r = _av.renorm_deep(r)
+                        if r[0] != "c" or not isinstance(r[1], bool):
+                            return None
+                        got.append(r[1])
+                    return got == [True, False, False]
+
                 def is_headerless(c):
-                    return len(c[4]) == 1 and c[4][0] == ("cmp", "==", ("call", "start_odeblock", (_av.C("expressions"),), (("is_expression", _av.C(True)), ("names", ("bv", c[1])))), _av.C("")) and c[3] == (("bv", c[1]),) and c[2][0] == "mcall" and c[2][2] == "keys" and same(c[2][1], D)
+                    return selects_headerless(c) is True
 
                 def is_rest(c):
                     return len(c[4]) == 1 and c[4][0][0] == "cmp" and c[4][0][1] == "not in" and c[4][0][2] == ("bv", c[1]) and c[3] == (("bv", c[1]),) and c[2][0] == "mcall" and c[2][2] == "keys" and same(c[2][1], D) and _av.canon_binders(c[4][0][3]) == _av.canon_binders(first)
@@ -280,6 +303,9 @@ def check_writer_sections(ctx: Ctx, rule: str, cls):
                 if is_headerless(first) and is_rest(second):
                     ok_hl = values_ok
                 elif is_headerless(second):
+                    ok_hl = False
+                elif is_rest(second) and selects_headerless(first) is False:
+                    # the keys are split into a first group and the rest, but the first group is not the header-less one
                     ok_hl = False
         if ok_hl is None:
             ctx.undecided(rule, hk, "print_assignments: the order of the blocks (header-less group first) is not built in the recognised way", f.where())
@@ -323,6 +349,22 @@ def check_writer_helpers(ctx: Ctx, rule: str):
         ctx.check(ok, rule, sp.key("text"), "name=value | name=ScalarParam(value, unit=.., description=..)", f"print_ScalarParam writes {sorted(set(t or '?' for t in texts))[:3]}: the value must be the printer's text for p.value, unmodified", sp.where())
         strs = util.strings_in(v)
         ctx.check(any(f'unit="{{{p0}.unit_str}}"' in t for t in strs) and any(f'description="{{{p0}.description}}"' in t for t in strs), rule, sp.key("annotations"), "unit and description are written", "print_ScalarParam: unit / description are no longer written as unit=\"..\" / description=\"..\"", sp.where())
+        # each annotation is left out exactly when the atom does not have it
+        raw_v = util.value_of(ctx, sp)
+        for field, text in (("unit_str", f'unit="{{{p0}.unit_str}}"'), ("description", f'description="{{{p0}.description}}"')):
+            guards = set()
+            for t in _av.find_all(raw_v, "if"):
+                a, b = t[2], t[3]
+                if a == _av.C("") and flat(b) == text:
+                    guards.add(t[1])
+                elif b == _av.C("") and flat(a) == text:
+                    guards.add(_av.mk_not(t[1]))
+            want = ("cmp", "is", ("sym", f"{p0}.{field}"), _av.NONE)
+            gkey = sp.key(f"annotation-guard::{field}")
+            if not guards:
+                ctx.undecided(rule, gkey, f"print_ScalarParam: the condition under which the {field} annotation is left out is not recognised", sp.where())
+            else:
+                ctx.check(guards == {want}, rule, gkey, f"{field} is left out exactly when it is None", f"print_ScalarParam leaves the {field} annotation out when `{_av.show(sorted(guards, key=repr)[0])}`, not exactly when {p0}.{field} is None: a declared {field} can be dropped from the saved file", sp.where())
     pas = sm.func("codegen/ode.py", "print_assignment")
     lv, v = leaves(pas)
     a0, dp = pas.params[0], pas.params[1] if len(pas.params) > 1 else "doprint"
@@ -346,3 +388,34 @@ def check_writer_helpers(ctx: Ctx, rule: str):
         joins = [j for j in _av.find_all(v, "join") if j[2][0] == "comp"]
         okn = bool(joins) and all(j[1] == _av.C(", ") and j[2][2] == ("sym", names) and not j[2][4] and len(j[2][3]) == 1 and flat(j[2][3][0]) == '"{$%d}"' % j[2][1] for j in joins)
         ctx.check(okn, rule, so.key("names"), "every component name, quoted", "start_odeblock does not write every component name in quotes" + (f" (it writes {_av.show(joins[0])[:80]})" if joins else ""), so.where())
+
+
+# the shapes of number literal the writer can emit (sympy's StrPrinter prints Integer as digits and Float through
+# mpmath's to_str at full precision: digits '.' digits, digits '.' when the value is integral and has as many digits
+# as the precision, and d '.' digits 'e' sign digits for large / small magnitudes), one witness each
+NUMBER_FORMS = {
+    "integer": "12",
+    "float": "1.5",
+    "float below one": "0.001",
+    "float ending in the point": "250000000000000000.",
+    "negative exponent": "1.0e-5",
+    "positive exponent with sign": "2.5e+17",
+}
+
+
+def check_number_forms(ctx: Ctx, rule: str, G):
+    """The number terminal of the grammar accepts, as one token, every shape of literal the writer prints."""
+    import re
+
+    name = "SCIENTIFIC_NUMBER"
+    rx = G.term_regex(name)
+    if rx is None:
+        ctx.undecided(rule, f"src/gotranx/ode.lark::{name}::accepts", f"terminal {name} is not defined by the grammar any more; which terminal reads numbers is not recognised", "src/gotranx/ode.lark")
+        return
+    try:
+        pat = re.compile(rx)
+    except re.error as e:
+        ctx.undecided(rule, f"src/gotranx/ode.lark::{name}::accepts", f"the regular expression of {name} cannot be compiled ({e})", "src/gotranx/ode.lark")
+        return
+    for form, witness in NUMBER_FORMS.items():
+        ctx.check(pat.fullmatch(witness) is not None, rule, f"src/gotranx/ode.lark::{name}::accepts::{form}", f"`{witness}` is one {name} token", f"the grammar's number token {name} does not accept `{witness}` ({form}), a form the .ode writer prints for Float / Integer values: a saved model with such a value cannot be loaded again", "src/gotranx/ode.lark")
